@@ -312,7 +312,32 @@ def translate(repo, only=None):
         out.append('Definition gen_gt_weight (w : Q) : Q := %s.' % sq(v.env['w']))
         out.append('Definition gen_gt_design (c r : vec) : Q * Q * Q := (vy r - vy c, vx r - vx c, 1).')
 
-    for t in (t_match_all, t_get_indices, t_weighted_optimize, t_optimize, t_get_transformation):
+    def t_corr_defaults():
+        """CorrelationResult.__init__: what an omitted optional argument stands for"""
+        f = find(mod, 'CorrelationResult.__init__')
+        dflt = {}
+        for st in f.body:
+            if isinstance(st, ast.If):
+                t = st.test
+                if not (isinstance(t, ast.Compare) and isinstance(t.ops[0], ast.Is) and isinstance(t.left, ast.Name) and ast.unparse(t.comparators[0]) == 'None'
+                        and len(st.body) == 1 and isinstance(st.body[0], ast.Assign) and ast.unparse(st.body[0].targets[0]) == t.left.id and not st.orelse):
+                    raise Untranslatable('CorrelationResult.__init__: unexpected `if`: %s' % ast.unparse(t))
+                if t.left.id in dflt:
+                    raise Untranslatable('CorrelationResult.__init__: two defaults for %s' % t.left.id)
+                dflt[t.left.id] = ast.unparse(st.body[0].value)
+        kinds = {'centers': 'DCenters', 'np.ones(len(centers))': 'DOnes', 'refineds': 'DRefineds', 'peak_values': 'DValues'}
+        for nm in ('refineds', 'peak_values', 'peak_elevations'):
+            if nm not in dflt or dflt[nm] not in kinds:
+                raise Untranslatable('CorrelationResult.__init__: default of %s is %s' % (nm, dflt.get(nm)))
+        stores = {ast.unparse(st.targets[0]): ast.unparse(st.value) for st in f.body if isinstance(st, ast.Assign) and ast.unparse(st.targets[0]).startswith('self.')}
+        if stores != {'self.centers': 'centers', 'self.refineds': 'refineds', 'self.peak_values': 'peak_values', 'self.peak_elevations': 'peak_elevations'}:
+            raise Untranslatable('CorrelationResult.__init__: attributes stored: %s' % stores)
+        out.append('Inductive corr_default := DCenters | DOnes | DRefineds | DValues.')
+        out.append('Definition gen_default_refineds : corr_default := %s.' % kinds[dflt['refineds']])
+        out.append('Definition gen_default_peak_values : corr_default := %s.' % kinds[dflt['peak_values']])
+        out.append('Definition gen_default_peak_elevations : corr_default := %s.' % kinds[dflt['peak_elevations']])
+
+    for t in (t_match_all, t_get_indices, t_weighted_optimize, t_optimize, t_get_transformation, t_corr_defaults):
         if only is not None and t.__name__ not in only:
             continue
         try:
